@@ -475,7 +475,12 @@ def own_property(pid, tier, seed, replay):
     if rows is None:
         violations.append(dict(kind="obligation", what="static report does not build", detail=rout[-2000:]))
     else:
-        static_bad = [r for r in rows if pid in r["property"].split(",") and r["offending"]]
+        static_bad = [r for r in rows if pid in r["property"].split(",") and r["offending"] and not r["rule"].startswith("[reading]")]
+        # "[reading]" rows: the call record of a function is no longer what the ownership reading
+        # recognises — the theorems are then about nothing; a broken obligation, not a failing input
+        for r in rows:
+            if pid in r["property"].split(",") and r["offending"] and r["rule"].startswith("[reading]"):
+                violations.append(dict(kind="obligation", what="static reading of the source no longer applies: " + r["rule"], offending=r["offending"]))
         evidence["static_rules"] = [dict(rule=r["rule"], offending=r["offending"]) for r in rows if pid in r["property"].split(",")]
     t1 = time.time()
     okb, bout, _ = build_harness()
@@ -813,7 +818,9 @@ def t1_property(pid, tier, seed, replay):
                                 known_hits[f["id"]] = known_hits.get(f["id"], 0) + len(r["recorded"])
                                 known_first.setdefault(f["id"], dict(case="(static) " + r["rule"], impl="; ".join(r["recorded"]), message=r["rule"]))
                 for r in static_rows:
-                    if r["offending"]:
+                    if r["offending"] and r["rule"].startswith("[reading]"):
+                        violations.append(dict(kind="obligation", what="static reading of the source no longer applies: " + r["rule"], offending=r["offending"]))
+                    elif r["offending"]:
                         n_direct_seen += 1
                         direct.append(dict(case="(static) " + r["rule"], impl="; ".join(r["offending"]), model=None,
                                            message=f"static rule over the regenerated fact table: {r['rule']}: " + "; ".join(r["offending"]), source="static"))
